@@ -100,6 +100,8 @@ class Check:
 
     def finish(self, machinery_failure=False):
         cov = self.cov
+        if not cov['samples']:
+            cov['samples'].append(dict(note='no sample recorded by this run', parts=list(cov['parts'])[:5]))
         if not cov['rule']:
             cov['rule'] = 'see parts'
         ev = dict(property_id=self.pid, tier=self.tier, seed=self.seed, level=self.level,
